@@ -96,7 +96,21 @@ func c15Bodies() []c15Body {
 	get := func(host string, path func(w *world.World) string) func(w *world.World) *http.Request {
 		return func(w *world.World) *http.Request { return world.NewRequest("GET", host, path(w), nil, "", nil) }
 	}
+	// requests of ANOTHER party that reuse an id chosen by the first (ids are requester-chosen: collisions are legal)
+	ssoSameID := func(w *world.World) *http.Request {
+		o := msg.AuthnOpts{ID: "_authn-q0-ta", Issuer: msg.SPB().EntityID, Destination: w.Cfg.SSOLocation(c15HostB)}
+		return msg.Redirect{XML: msg.Authn(o).Render(xt.Style{}), RelayState: "relay-q9-tj"}.Request(c15HostB, w.Cfg.SSOPath())
+	}
+	aqSameID := func(w *world.World) *http.Request {
+		return msg.SOAPRequest(c15HostB, w.Cfg.AttributePath(), msg.SOAP(msg.AttrQuery(msg.AttrQueryOpts{ID: "_aq-" + c15Sess[0], Issuer: msg.SPB().EntityID, NameID: "user-" + c15Sess[1]})).Render(xt.Style{}))
+	}
+	loSameID := func(w *world.World) *http.Request {
+		return msg.PostForm(c15HostB, w.Cfg.SLOPath(), "SAMLRequest", msg.Logout(msg.LogoutOpts{ID: "_lo-q6-tg", Issuer: msg.SPB().EntityID, NameID: "user-q8-ti"}).Render(xt.Style{}), "relay-q8-ti", nil)
+	}
 	return []c15Body{
+		{"sso-B-with-the-request-id-of-sso-A", []string{"q9-tj", c15HostB, "q0-ta"}, ssoSameID}, // the shared id carries the other body's tag legitimately
+		{"attrquery-S2-with-the-query-id-of-attrquery-S1", []string{c15Sess[1], c15HostB, c15Sess[0]}, aqSameID},
+		{"logout-B-with-the-request-id-of-logout-A", []string{"q8-ti", c15HostB, "q6-tg"}, loSameID},
 		{"sso-A", []string{"q0-ta", c15HostA}, sso(msg.SPA(), c15HostA, "q0-ta", false)},
 		{"sso-B", []string{"q1-tb", c15HostB}, sso(msg.SPB(), c15HostB, "q1-tb", false)},
 		{"sso-rejected-A", []string{"q2-tc", c15HostA}, sso(msg.SPA(), c15HostA, "q2-tc", true)},
@@ -123,6 +137,7 @@ var (
 )
 
 type c15Obs struct {
+	Location string // Location header of the reply
 	Norm string   // normalised reply (compared with the solo run)
 	Raw  string   // everything the reply carries, decoded (marker scan)
 	IDs  []string // message IDs found
@@ -151,7 +166,7 @@ func c15Observe(rep *world.Reply) c15Obs {
 	}
 	sb.WriteString(doc)
 	raw := sb.String() + "\n" + obs.AllText(rep, m)
-	o := c15Obs{Raw: raw}
+	o := c15Obs{Raw: raw, Location: rep.Header.Get("Location")}
 	if root, err := xt.Parse([]byte(doc)); err == nil {
 		root.Walk(func(n *xt.Node) {
 			switch n.Local {
@@ -174,6 +189,8 @@ func c15Observe(rep *world.Reply) c15Obs {
 	return o
 }
 
+var reLoginID = regexp.MustCompile(`authRequestID=([0-9a-f-]{36})`)
+
 var c15Solo sync.Map // body name -> c15Obs of the request alone on a fresh world
 
 func c15SoloObs(b c15Body) c15Obs {
@@ -181,7 +198,8 @@ func c15SoloObs(b c15Body) c15Obs {
 		return o.(c15Obs)
 	}
 	w := c15World()
-	o := c15Observe(w.Do(b.Req(w)))
+	rep := w.Do(b.Req(w))
+	o := c15Observe(rep)
 	c15Solo.Store(b.Name, o)
 	return o
 }
@@ -285,6 +303,12 @@ func c15RunScenario(sc c15Scenario, bound int, deadline time.Time, only []int) c
 			return
 		}
 		execIDs := map[string]bool{}
+		allCalls := curWorld.Store.Calls()
+		for i := len(sc.Bodies); i < len(x.Panics); i++ {
+			if x.Panics[i] != nil {
+				violate("goroutine-started-by-a-handler-panicked", schedule, -1, fmt.Sprint(x.Panics[i]))
+			}
+		}
 		for i := range sc.Bodies {
 			if x.Panics[i] != nil {
 				violate("thread-panicked", schedule, i, fmt.Sprint(x.Panics[i]))
@@ -293,6 +317,22 @@ func c15RunScenario(sc c15Scenario, bound int, deadline time.Time, only []int) c
 			o := x.Results[i].(c15Obs)
 			if o.Norm != solos[i].Norm {
 				violate("reply-differs-from-the-reply-to-the-same-request-alone", schedule, i, diffHint(solos[i].Norm, o.Norm))
+			}
+			// a request that is sent on to the login UI was persisted by ITSELF, once, and is sent to the id storage returned for it
+			if m := reLoginID.FindStringSubmatch(o.Location); m != nil {
+				own := 0
+				match := false
+				for _, c := range allCalls {
+					if c.Thread == i && c.Op == "CreateAuthRequest" && c.Err == "" {
+						own++
+						if c.Result == m[1] {
+							match = true
+						}
+					}
+				}
+				if own != 1 || !match {
+					violate("sent-to-the-login-with-an-id-this-request-did-not-persist", schedule, i, fmt.Sprintf("location id %s, own successful CreateAuthRequest calls: %d", m[1], own))
+				}
 			}
 			// markers of the other threads' sessions
 			own := map[string]bool{}
@@ -398,7 +438,7 @@ func runC15(ctx Ctx) int {
 		}
 	}
 	run := ev.NewRun("C15")
-	run.Rule = "stateless exploration under a cooperative scheduler: every interleaving, within the preemption bound, of 2-3 real requests against ONE provider (120 pairs over 15 request bodies incl. every body with itself, 3 triples); scheduling points before EVERY STATEMENT of every repository function (and at every function / function-literal entry, every storage call, every sync-shim operation); a state is a schedule (choice sequence); oracle: each reply (IDs, signature bytes masked) equals the reply the same request gets alone on a fresh provider, no reply or storage call carries another session's marker, all message IDs of all threads and executions are distinct NCNames, no deadlock; history companion: every sequence of <= 3 requests on one provider gives each the solo reply; race companion: the same bodies free-running in a -race build"
+	run.Rule = "stateless exploration under a cooperative scheduler: every interleaving, within the preemption bound, of 2-3 real requests against ONE provider (120 pairs over 15 request bodies incl. every body with itself, 3 triples); scheduling points before EVERY STATEMENT of every repository function (and at every function / function-literal entry, every storage call, every sync-shim operation); a state is a schedule (choice sequence); oracle: each reply (IDs, signature bytes masked) equals the reply the same request gets alone on a fresh provider, a request sent on to the login UI was persisted by itself exactly once and is sent to the id returned for it, no reply or storage call carries another session's marker, all message IDs of all threads and executions are distinct NCNames, no deadlock; history companion: every sequence of <= 3 requests on one provider gives each the solo reply; race companion: the same bodies free-running in a -race build"
 	run.Assume = []string{"interleavings inside one statement, inside the Go runtime and inside third-party libraries are not explored by the scheduler; unsynchronised accesses there are the race companion's business (free-running, not exhaustive)", "preemption bound as reported; N is 2-3 threads"}
 	if ctx.Replay != "" {
 		var rp c15Replay
